@@ -324,7 +324,7 @@ def k_loader(ctx, var: Variants, tmp):
     from graphql import parse
 
     run, rng = ctx.run, ctx.rng
-    ntrees = 1200 if ctx.thorough else 220
+    ntrees = 2500 if ctx.thorough else 220
     cases = []
     for i in range(ntrees):
         with_sd = i % 6 == 0
@@ -746,8 +746,27 @@ def k2_via_introspection(run, schema, minputs, model_via):
             if f.ast_node is not None:
                 run.broken("K2 via_introspection", f"{tname}.{fname} has an ast_node after introspection")
             a, b = src.fields[fname].default_value, f.default_value
+            # values are kept, except that keys naming deprecated fields of nested input objects go with those
+            # fields (a consequence of F19-deprecated-input-fields; no theorem uses the value when such fields exist)
+            if a is not Undefined:
+                a = strip_deprecated(a, src.fields[fname].type)
             if (a is Undefined) != (b is Undefined) or (a is not Undefined and a != b):
                 run.broken("K2 via_introspection", f"{tname}.{fname}: default value {a!r} became {b!r}")
+
+
+def strip_deprecated(value, type_):
+    from graphql import GraphQLInputObjectType, GraphQLList, GraphQLNonNull
+
+    if isinstance(type_, GraphQLNonNull):
+        return strip_deprecated(value, type_.of_type)
+    if value is None:
+        return None
+    if isinstance(type_, GraphQLList):
+        return [strip_deprecated(v, type_.of_type) for v in value] if isinstance(value, list) else value
+    if isinstance(type_, GraphQLInputObjectType) and isinstance(value, dict):
+        return {k: strip_deprecated(v, type_.fields[k].type) for k, v in value.items()
+                if k in type_.fields and type_.fields[k].deprecation_reason is None}
+    return value
 
 
 def loosely_equal_default(a, b):
@@ -850,7 +869,7 @@ def k_scenarios(ctx, var: Variants, tmp):
     from graphql import get_introspection_query
 
     run = ctx.run
-    n = 160 if ctx.thorough else 32
+    n = 320 if ctx.thorough else 32
     tls = make_tls(tmp)
     run.extra["tls_loopback"] = bool(tls)
     seeds = [ctx.seed * 100000 + 1000 + i for i in range(n)]
